@@ -643,6 +643,7 @@ add_trigger(vbi_decoder *vbi, vbi_trigger *a)
 	if (!(t = malloc(sizeof(*t))))
 		return;
 
+	*t = *a;
 	t->next = vbi->triggers;
 	vbi->triggers = t;
 }
